@@ -23,6 +23,8 @@ CONSTANTS MaxPg,      \* model pages 1..MaxPg
           AllowWAL,   \* WAL mode reachable
           FinModes,   \* subset of {"DELETE","TRUNCATE","PERSIST"}
           AllowSpill, \* rollback-journal transactions may spill / roll back after writing
+          AllowBeyond,\* transactions may write pages beyond their committed size (spill, then free: incremental vacuum)
+          FixBeyond,  \* TRUE = CommitWAL leaves frames of pages beyond the commit size out of the LTX file (as repaired)
           AllowNoSync,\* journal headers written with magic from the start (synchronous=OFF)
           FixOOB,     \* TRUE = checksum() bounds as repaired, FALSE = as originally written
           FixFirstRb, \* TRUE = CommitJournal treats an empty database file as "nothing to capture" (as repaired)
@@ -149,21 +151,25 @@ BeginJ ==
   /\ pc' = "j_create" /\ todo' = <<>> /\ ops' = ops + 1
   /\ UNCHANGED <<dvars, lvars, refImg, salts, mx, ckpted, mvars>>
   /\ \E ns \in 1..MaxPg, M \in SUBSET Pages, out \in {"commit", "rb_early", "rb_spill"},
-        fin \in FinModes, nosync \in BOOLEAN, toWal \in BOOLEAN :
+        fin \in FinModes, nosync \in BOOLEAN, toWal \in BOOLEAN, E \in SUBSET Pages :
        /\ 1 \in M /\ M \subseteq 1..ns /\ (((CurSize + 1)..ns) \ {LockPg}) \subseteq M /\ LockPg \notin M
+       \* E: pages beyond the committed size that were spilled to the file during the transaction and
+       \* then freed again (incremental vacuum): written, but not part of the committed database
+       /\ E \subseteq (ns + 1)..MaxPg /\ LockPg \notin E
+       /\ (E # {} => AllowBeyond /\ out = "commit" /\ \A q \in (Max({CurSize, ns}) + 1)..Max(E) : q \in E \/ q = LockPg)
        /\ (nosync => AllowNoSync)
        /\ (out = "rb_spill" => AllowSpill)
        /\ (toWal => AllowWAL /\ out = "commit")
        /\ plan' = [kind |-> "j", ns |-> ns, M |-> M, out |-> out, fin |-> fin, nosync |-> nosync,
-                   wal |-> toWal, v |-> ops + 1]
-       /\ H("BeginJ", [ns |-> ns, M |-> M, out |-> out, fin |-> fin, nosync |-> nosync, wal |-> toWal, v |-> ops + 1])
+                   wal |-> toWal, v |-> ops + 1, E |-> E]
+       /\ H("BeginJ", [ns |-> ns, M |-> M, out |-> out, fin |-> fin, nosync |-> nosync, wal |-> toWal, v |-> ops + 1, E |-> E])
 
 (* ---------------- rollback-journal protocol ---------------- *)
 \* journal created (or re-opened in TRUNCATE/PERSIST mode), header + records of the pre-existing pages in M
 JCreate ==
   /\ pc = "j_create"
   /\ jr' = [ex |-> TRUE, hdr |-> IF plan.nosync THEN "valid" ELSE "unsynced", orig |-> CurSize,
-            recs |-> [p \in {q \in plan.M : q <= CurSize} |-> refImg[p]]]
+            recs |-> [p \in {q \in plan.M \cup plan.E : q <= CurSize} |-> refImg[p]]]
   /\ psKnown' = TRUE                 \* WriteJournalAt takes the page size from the header
   /\ pc' = IF plan.out = "rb_early" THEN "j_final" ELSE "j_sync"
   /\ UNCHANGED <<dbf, wal, ltxN, ltxLast, pageN, pos, mode, dirty, pchk, blk, woff, wsalt, foff, wchk, fault,
@@ -174,7 +180,7 @@ JSync ==     \* fsync + magic/nRec written into the header, before the first dat
   /\ pc = "j_sync"
   /\ jr' = [jr EXCEPT !.hdr = "valid"]
   /\ pc' = "j_pages"
-  /\ todo' = IF plan.out = "commit" THEN SeqOfSet(plan.M)
+  /\ todo' = IF plan.out = "commit" THEN SeqOfSet(plan.M \cup plan.E)
              ELSE <<Head(SeqOfSet(plan.M))>>          \* spill: only the first page reaches the file
   /\ UNCHANGED <<dbf, wal, ltxN, ltxLast, lvars, plan, refImg, ops, salts, mx, ckpted, mvars>>
   /\ H("JSync", [x |-> 0])
@@ -189,12 +195,12 @@ DBWriteEff(p, c) ==
 
 JPage ==
   /\ pc = "j_pages" /\ todo # <<>>
-  /\ DBWriteEff(Head(todo), NewContent(Head(todo)))
+  /\ DBWriteEff(Head(todo), IF Head(todo) \in plan.E THEN [NewContent(Head(todo)) EXCEPT !.v = plan.v + 200] ELSE NewContent(Head(todo)))
   /\ todo' = Tail(todo)
   /\ pc' = IF Tail(todo) # <<>> THEN "j_pages" ELSE IF plan.out = "commit" THEN "j_final" ELSE "j_rb_trunc"
   /\ UNCHANGED <<jr, wal, ltxN, ltxLast, psKnown, pageN, pos, mode, woff, wsalt, foff, wchk, fault,
                  plan, refImg, ops, salts, mx, ckpted, mvars>>
-  /\ H("JPage", [p |-> Head(todo)])
+  /\ H("JPage", [p |-> Head(todo), x |-> Head(todo) \in plan.E])
 
 \* TruncateDatabase (db.go): only to LiteFS's own page count
 TruncEff(n) ==
@@ -285,17 +291,19 @@ BeginW ==
   /\ pc = "idle" /\ ops < MaxOps /\ Live /\ EnvWal
   /\ pc' = "w_hdr" /\ todo' = <<>> /\ ops' = ops + 1
   /\ UNCHANGED <<dvars, lvars, refImg, salts, mx, ckpted, mvars>>
-  /\ \E ns \in 1..MaxPg, M \in SUBSET Pages, out \in {"commit", "rollback"}, dup \in {0} \cup Pages :
+  /\ \E ns \in 1..MaxPg, M \in SUBSET Pages, out \in {"commit", "rollback"}, dup \in {0} \cup Pages, E \in SUBSET Pages :
        /\ 1 \in M /\ M \subseteq 1..ns /\ (((CurSize + 1)..ns) \ {LockPg}) \subseteq M /\ LockPg \notin M
        /\ (dup # 0 => dup \in M /\ AllowSpill)
-       /\ plan' = [kind |-> "w", ns |-> ns, M |-> M, out |-> out, dup |-> dup, wal |-> TRUE, v |-> ops + 1]
-       /\ H("BeginW", [ns |-> ns, M |-> M, out |-> out, dup |-> dup, v |-> ops + 1])
+       \* E: frames of pages beyond the committed size (spilled, then freed before the commit)
+       /\ E \subseteq (ns + 1)..MaxPg /\ LockPg \notin E /\ (E # {} => AllowBeyond /\ out = "commit" /\ dup = 0)
+       /\ plan' = [kind |-> "w", ns |-> ns, M |-> M, out |-> out, dup |-> dup, wal |-> TRUE, v |-> ops + 1, E |-> E]
+       /\ H("BeginW", [ns |-> ns, M |-> M, out |-> out, dup |-> dup, v |-> ops + 1, E |-> E])
 
 \* WRITE lock taken; if the log is empty or fully checkpointed SQLite restarts it: new header, new salt.
 \* LiteFS writeWALHeader resets offset / salt / frameOffsets / wal checksums.
 WHdr ==
   /\ pc = "w_hdr"
-  /\ todo' = (IF plan.dup # 0 THEN <<plan.dup>> ELSE <<>>) \o SeqOfSet(plan.M)
+  /\ todo' = (IF plan.dup # 0 THEN <<plan.dup>> ELSE <<>>) \o (IF plan.E = {} THEN <<>> ELSE SeqOfSet(plan.E)) \o SeqOfSet(plan.M)
   /\ pc' = "w_frames"
   /\ UNCHANGED <<dbf, jr, ltxN, ltxLast, psKnown, pageN, pos, mode, dirty, pchk, blk, fault, plan, refImg, ops, mvars>>
   /\ IF ~wal.ex \/ wal.hdr = 0 \/ (mx = 0) \/ ckpted
@@ -306,7 +314,7 @@ WHdr ==
      ELSE /\ UNCHANGED <<salts, wal, woff, wsalt, foff, wchk, mx, ckpted>>
           /\ H("WHdr", [salt |-> 0])
 
-NFrames == (IF plan.dup # 0 THEN 1 ELSE 0) + Cardinality(plan.M)
+NFrames == (IF plan.dup # 0 THEN 1 ELSE 0) + Cardinality(plan.E) + Cardinality(plan.M)
 \* frame k of the transaction is written at index mx + k (the pager appends after the last commit it knows)
 WFrame ==
   /\ pc = "w_frames" /\ todo # <<>>
@@ -317,12 +325,14 @@ WFrame ==
          p == Head(todo)
          early == plan.dup # 0 /\ k = 1
          last == Tail(todo) = <<>>
-         c == IF early THEN [NewContent(p) EXCEPT !.v = plan.v + 100] ELSE NewContent(p)
+         beyond == p \in plan.E
+         c == IF early THEN [NewContent(p) EXCEPT !.v = plan.v + 100]
+              ELSE IF beyond THEN [NewContent(p) EXCEPT !.v = plan.v + 200] ELSE NewContent(p)
          prev == IF i = 1 THEN [tx |-> 0, k |-> wal.hdr] ELSE [tx |-> wal.frames[i - 1].tx, k |-> wal.frames[i - 1].k]
          f == [pg |-> p, c |-> c, commit |-> IF last /\ plan.out = "commit" THEN plan.ns ELSE 0,
                salt |-> wal.hdr, tx |-> plan.v, k |-> k, ptx |-> prev.tx, pk |-> prev.k]
      IN /\ wal' = [wal EXCEPT !.frames = IF i <= Len(@) THEN [@ EXCEPT ![i] = f] ELSE Append(@, f)]
-        /\ H("WFrame", [p |-> p, i |-> i, commit |-> f.commit, early |-> early])
+        /\ H("WFrame", [p |-> p, i |-> i, commit |-> f.commit, early |-> early, x |-> beyond])
 
 \* frames LiteFS accepts when scanning from woff: matching salt and unbroken checksum chain
 ChainOKAt(fr, i) == /\ fr[i].salt = wsalt
@@ -341,7 +351,7 @@ WEnd ==
                  txi == (woff + 1)..e0
                  commit == fr[e0].commit
                  lastOf(p) == Max({i \in txi : fr[i].pg = p})
-                 pgs == {fr[i].pg : i \in txi} \ {LockPg}
+                 pgs == {q \in {fr[i].pg : i \in txi} \ {LockPg} : ~FixBeyond \/ q <= commit}
                  gone == {q \in (commit + 1)..pageN : q # LockPg}
                  \* truncated pages are re-read and compared with the remembered checksum
                  goneBad == \E q \in gone : PageChk(pchk, q, pageN, <<>>)[1] # Logical(pageN)[q]
@@ -351,7 +361,7 @@ WEnd ==
                  e == [min |-> pos.t + 1, max |-> pos.t + 1, pre |-> pos.c, post |-> cs.c, commit |-> commit,
                        pages |-> [p \in {q \in pgs : q <= commit} |-> fr[lastOf(p)].c],
                        wsalt |-> wsalt, woff |-> woff, wn |-> e0 - woff]
-                 tooBig == \E p \in pgs : p > commit      \* ltx encoder refuses pages beyond commit
+                 tooBig == ~FixBeyond /\ \E p \in pgs : p > commit      \* ltx encoder refuses pages beyond commit
                  newRef == IF plan.out = "commit" THEN NewImage ELSE refImg
              IN IF goneBad \/ cs.err # "none" \/ snapBad \/ tooBig
                 THEN /\ fault' = (IF goneBad THEN "trunc-page-mismatch" ELSE IF snapBad THEN "snapshot-pages"
